@@ -170,7 +170,15 @@ func (w *c09pWorld) take(target string) string {
 func (w *c09pWorld) note(b int, s string) {
 	w.mu.Lock()
 	if b >= 0 {
-		w.state[b] = s
+		if prev := w.state[b]; s == "head" && prev != "" && prev != "head" {
+			// a later push asks for a blob whose upload was disturbed: keep what happened to the upload
+			if !strings.HasSuffix(prev, "+asked-again") {
+				prev += "+asked-again"
+			}
+			w.state[b] = prev
+		} else {
+			w.state[b] = s
+		}
 	}
 	if len(w.log) < 300 {
 		w.log = append(w.log, fmt.Sprintf("blob %d: %s", b, s))
@@ -592,11 +600,12 @@ func TestVerifC09Push(t *testing.T) {
 	rep := kit.NewReport("C09P")
 	cfg := rep.Cfg()
 	defer rep.Flush()
-	rep.Set("rule", "case i = PRNG(seed,'C09P',i): a model of 1-4 layers (+config in 3/4 of the cases) in a legacy store is pushed with the real server.PushModel (uploadBlob, blobUpload.Prepare/Run/Wait) to a fake registry in which some blobs are already present (HEAD 200) and one request of the plan fails (HEAD/POST/PATCH/commit/manifest: 5xx, 403, connection reset) or one local blob file is damaged (digest mismatch at commit). At the manifest PUT the registry checks that every layer and the config were accepted (committed with matching digest and size, or answered present on HEAD). Non-trivial = >= 2 blobs committed, or a fault fired on a push of >= 2 blobs. Distinct = distinct (layer count, config?, present count, fired fault, damaged blob?, outcome).")
+	rep.Set("rule", "case i = PRNG(seed,'C09P',i): a model of 1-4 layers (+config in 3/4 of the cases) in a legacy store is pushed with the real server.PushModel (uploadBlob, blobUpload.Prepare/Run/Wait) to a fake registry in which some blobs are already present (HEAD 200) and one request of the plan fails (HEAD/POST/PATCH/commit/manifest: 5xx, 403, connection reset) or one local blob file is damaged (digest mismatch at commit). At the manifest PUT the registry checks that every layer and the config were accepted (committed with matching digest and size, or answered present on HEAD). In 1/5 of the cases TWO pushes of the same model run around one disturbed upload: the part or the commit of one blob is refused once (or twice), and while blobUpload.Run sleeps in its backoff the first push is cancelled by its client and/or a second push arrives and joins the upload still registered in blobUploadManager (second push after the cancel / before it / after the upload has gone / none), sequenced by registry events, not by time. Non-trivial = >= 2 blobs committed, or a fault fired on a push of >= 2 blobs. Distinct = distinct (layer count, config?, present count, fired fault, damaged blob?, outcome, two-push plan).")
 	rep.Set("assumptions", []string{
 		"single-part uploads only (blobs < 100 MB): the multi-part / redirect (307) upload path of blobUpload.uploadPart is not driven",
 		"no authentication challenge (401) in the plans",
-		"a PATCH or commit fault costs the client's fixed 1 s retry sleep, so at most one per case; an upload that fails for good costs 63 s and is planned in 1/150 of the thorough-tier cases only (so an error lost between blobUpload.Run and blobUpload.Wait is visible in the thorough tier only)",
+		"a PATCH or commit fault costs the client's fixed 1 s retry sleep, so at most one per case; an upload that fails for good costs 63 s and is planned in 1/150 of the thorough-tier cases only; an error lost between blobUpload.Run and blobUpload.Wait is visible in the quick tier through the two-push plans (an abandoned upload that ends cancelled while a second push waits on it)",
+		"two-push plans: timers only sequence the pushes (30 ms after the second push's HEAD was seen, polling blobUploadManager) or act as watchdogs (inconclusive); which window was hit is counted (two_push_window_*), the verdict is what the registry had accepted when a manifest PUT arrived",
 	})
 	n := cfg.N(120, 3000)
 	replayIdx := -1
